@@ -32,3 +32,5 @@ for name in sys.argv[1:]:
     json.dump(meta, open(d + "/meta.json", "w"), indent=1)
     print(name, "detected=%s" % detected, [x["key"] or x["no_longer_checks"] for x in detail][:3], flush=True)
 sh("rm -rf /verif/replays")
+# evidence written while a seeded patch was applied must never be committed
+sh("git -C /verif checkout -- evidence")
